@@ -1,6 +1,7 @@
 /* abtsim core: sim threads, seeded scheduler, virtual clock, trace, monitors */
 #define _GNU_SOURCE
 #include "sim_int.h"
+#include "whitebox.h"
 #include <stdlib.h>
 #include <string.h>
 #include <errno.h>
@@ -187,6 +188,7 @@ static int new_thread(int role)
     t->state = ST_RUNNABLE;
     t->joiner = -1;
     t->spin_limit = 64;
+    t->born = G.steps;
     t->prio = (srnd(1u << 30) << 1) | 1; /* non-zero */
     setup_stack(t);
     return id;
@@ -699,6 +701,8 @@ void sim_count(const char *name, uint64_t add)
 
 void abtv_event(int kind, const void *obj, const void *who)
 {
+    if (kind == 6 /* ABTV_EV_MEM_LOCAL_POOL_ACCESS */ && !G.frozen)
+        wb_local_pool_access(obj);
     if (G.event_cb)
         G.event_cb(kind, obj, who);
 }
